@@ -362,6 +362,10 @@ impl Ctx {
             }
             return 1;
         }
+        if evals == 0 || distinct < 2 {
+            println!("INCONCLUSIVE: property={} explored nothing (evaluations={evals}, distinct_nontrivial={distinct})", self.id);
+            return 2;
+        }
         if !inconclusive.is_empty() {
             for i in &inconclusive {
                 println!("INCONCLUSIVE: {i}");
